@@ -103,3 +103,55 @@ Proof. exact ProofsTsort.tsort_complete. Qed.
 
 Theorem tsort_total : forall ns, tsort ns <> Panic /\ tsort ns <> Fuel.
 Proof. exact (fun ns => conj (ProofsTsort.tsort_no_panic ns) (ProofsTsort.tsort_no_fuel ns)). Qed.
+
+(** ---- non-vacuity: a concrete history (3-node chain 1 -> 2 -> 3, a refused cycle-closing edge, a fresh rename,
+    an add/remove pair and a sort) meets the hypotheses of the theorems above *)
+Definition ex_chain : list op := [OInc 1 2; OInc 2 3; OAdd 3].
+Definition ex_ops : list op := ex_chain ++ [OInc 3 1; ORename 2 5; OAdd 7; ORemove 7; OSort].
+Definition ex_g : graph :=
+  {| nodes := [{| nid := 1; ndeps := [2] |}; {| nid := 2; ndeps := [3] |}; {| nid := 3; ndeps := [] |}];
+     index := [(1, 0%nat); (2, 1%nat); (3, 2%nat)] |}.
+
+Example ex_hist_ok : hist_ok empty ex_ops = true.
+Proof. vm_compute. reflexivity. Qed.
+Example ex_chain_run : run_ops empty ex_chain = Ok ex_g.
+Proof. vm_compute. reflexivity. Qed.
+Example ex_run : run_ops empty ex_ops =
+  Ok {| nodes := [{| nid := 3; ndeps := [] |}; {| nid := 5; ndeps := [3] |}; {| nid := 1; ndeps := [5] |}];
+        index := [(3, 0%nat); (5, 1%nat); (1, 2%nat)] |}.
+Proof. vm_compute. reflexivity. Qed.
+(* index_inv_history / step_no_panic / fuel_enough / queries_agree / abs_step: the chain state satisfies index_inv *)
+Example ex_index_inv : index_inv ex_g.
+Proof.
+  destruct (index_inv_history ex_chain) as [g [Hr Hi]]; [vm_compute; reflexivity|].
+  rewrite ex_chain_run in Hr. inversion Hr; subst g. exact Hi.
+Qed.
+(* deep_depends_on_reach / reachb_spec: 1 reaches 3 through 2, 3 does not reach 1 *)
+Example ex_deep : deep_depends_on ex_g 1 3 = Ok true /\ deep_depends_on ex_g 3 1 = Ok false /\
+                  reachb (E (abs ex_g)) 1 3 = true /\ reachb (E (abs ex_g)) 3 1 = false.
+Proof. vm_compute. repeat split; reflexivity. Qed.
+Example ex_reach : reach (E (abs ex_g)) 1 3.
+Proof. apply (proj1 (deep_depends_on_reach ex_g 1 3 ex_index_inv)). vm_compute. reflexivity. Qed.
+(* inc_ref_refuses_cycle: 3 -> 1 would close the cycle and is refused with the state unchanged; 3 -> 9 is accepted *)
+Example ex_refused : inc_ref ex_g 3 1 = Ok (IncCycle, ex_g) /\ add_node_if_none ex_g 3 = ex_g /\
+                     (3 <> 1 /\ reach (E (abs ex_g)) 1 3).
+Proof.
+  split; [vm_compute; reflexivity|]. split; [vm_compute; reflexivity|]. split; [discriminate|exact ex_reach].
+Qed.
+Example ex_accepted : exists g2, inc_ref ex_g 3 9 = Ok (IncOk, g2) /\ E (abs g2) = [(1, 2); (2, 3); (3, 9)].
+Proof. eexists. split; vm_compute; reflexivity. Qed.
+(* acyclic_inv: the chain history has no rename, so the chain graph is acyclic *)
+Example ex_acyclic : acyclic (E (abs ex_g)).
+Proof. apply (acyclic_inv ex_chain ex_g); [vm_compute; reflexivity|exact ex_chain_run]. Qed.
+(* tsort_sound / tsort_complete / sort_judged: the chain sorts to 3, 2, 1; the two error kinds do occur *)
+Example ex_tsort : tsort (nodes ex_g) =
+  Ok (inr [{| nid := 3; ndeps := [] |}; {| nid := 2; ndeps := [3] |}; {| nid := 1; ndeps := [2] |}]) /\
+  NoDup (map nid (nodes ex_g)).
+Proof. split; [vm_compute; reflexivity|exact (proj1 ex_index_inv)]. Qed.
+Example ex_tsort_errors :
+  tsort [{| nid := 1; ndeps := [2] |}; {| nid := 2; ndeps := [1] |}] = Ok (inl CyclicReference) /\
+  tsort [{| nid := 1; ndeps := [9] |}] = Ok (inl KeyNotFound).
+Proof. split; vm_compute; reflexivity. Qed.
+Example ex_sort_judged : exists x, sort ex_g = Ok x /\ judge_sort (abs ex_g) (sort_code (fst x)) (map nid (nodes (snd x))) = true
+                                   /\ map nid (nodes (snd x)) = [3; 2; 1].
+Proof. eexists. split; [vm_compute; reflexivity|]. split; vm_compute; reflexivity. Qed.
